@@ -380,8 +380,49 @@ def mon_batch(ops, lines):
     return None
 
 
+def mon_rejected_pure(ops, lines):
+    """C17/C05: a request answered with an error status leaves the observable state of the subscriptions unchanged:
+    the STATS line of a subscription before a rejected request equals the next one after it (no time passes in
+    between; intervening successful requests reset the comparison)."""
+    last = {}       # sub -> STATS result line, valid while nothing succeeded since
+    pending = None  # index of a rejected request after which the next STATS must equal `last`
+    for i, (o, r) in enumerate(zip(ops, lines)):
+        ot, rt = o.split(" "), r.split(" ")
+        k = ot[0]
+        if k == "STATS":
+            if rt[1:2] == ["0"]:
+                if pending is not None and ot[1] in last and last[ot[1]] != r:
+                    return ("C17-rejected-changed-state: after the rejected request at op %d (%s) STATS of %r went from "
+                            "%s to %s" % (pending, ops[pending].split(" ")[0], unhx(ot[1]), last[ot[1]], r))
+                last[ot[1]] = r
+            pending = None
+            continue
+        rejected = False
+        changing = k in ("PUB", "PUBN", "PULL", "ACK", "MOD", "CS", "DS", "DT", "CT", "SO")
+        if k == "SR":
+            rejected = rt[-1] == "3"
+            changing = len(rt) > 2 and rt[1] != "0"
+        elif k in ("SS", "SC", "SEED"):
+            continue
+        elif k == "ADV":
+            last.clear(); pending = None
+            continue
+        else:
+            rejected = len(rt) > 1 and rt[1] not in ("0",)
+        if rejected:
+            if pending is None:
+                pending = i
+        elif changing:
+            last.clear(); pending = None
+    return None
+
+
 def mon_malformed(ops, lines):
-    """C17: malformed fields are answered with INVALID_ARGUMENT, never with a crash/hang."""
+    """C17: malformed fields are answered with INVALID_ARGUMENT, never with a crash/hang; rejected requests
+    change no state."""
+    w = mon_rejected_pure(ops, lines)
+    if w:
+        return w
     for i, (o, r) in enumerate(zip(ops, lines)):
         if r.startswith("!"):
             return "C17-noanswer: op %d %s -> %s" % (i, o.split(" ")[0], r[:80])
